@@ -425,6 +425,10 @@ static var Process_Open(var self, var filename, var access) {
 static void Process_Close(var self) {
   struct Process* p = self;
   
+  if (p->proc is NULL) {
+    throw(IOError, "Cannot close process - no process open.");
+  }
+  
   /* Whatever pclose reports, the stream is gone afterwards */
   int err = pclose(p->proc);
   p->proc = NULL;
